@@ -185,15 +185,22 @@ def run(ctx: Ctx, tier: str) -> Result:
     # "every active metric processor": the enumeration of the plugins of a kind hands out every plugin of the list that is of
     # that kind - nothing but the kind decides (two exporters of one class, or with one name, are two processors)
     csvc = p.cls("deep.config.config_service.ConfigService")
-    gens = [f_ for lst_ in csvc.methods.values() for f_ in lst_ if list(t.nodes_in(f_, (ast.Yield, ast.YieldFrom)))]
+    # (a generator function, or a function that returns a generator expression / list comprehension over the plugin list)
+    def _enumerates(f_):
+        if list(t.nodes_in(f_, (ast.Yield, ast.YieldFrom))):
+            return True
+        return len(f_.params) == 2 and any(isinstance(r.value, (ast.GeneratorExp, ast.ListComp)) and any("_plugins" in norm(g_.iter) for g_ in r.value.generators)
+                                           for r in t.nodes_in(f_, ast.Return) if r.value is not None)
+    gens = [f_ for lst_ in csvc.methods.values() for f_ in lst_ if _enumerates(f_)]
     for gf_ in gens:
         tp_ = gf_.params[1] if len(gf_.params) > 1 else None
-        for y_ in t.nodes_in(gf_, (ast.Yield, ast.YieldFrom)):
+        outs = list(t.nodes_in(gf_, (ast.Yield, ast.YieldFrom))) or [r for r in t.nodes_in(gf_, ast.Return) if isinstance(r.value, (ast.GeneratorExp, ast.ListComp))]
+        for y_ in outs:
             cnds = paths.conditions(p, paths.stmt_of(p, y_), gf_)
             other = [c_ for c_, _pol in cnds if not (isinstance(c_, ast.Call) and norm(c_.func) == "isinstance" and len(c_.args) == 2 and tp_ and norm(c_.args[1]) == tp_)]
             filt = [g_ for n_ in ast.walk(y_) if isinstance(n_, (ast.ListComp, ast.GeneratorExp)) for g_ in n_.generators for i_ in g_.ifs
                     if not (isinstance(i_, ast.Call) and norm(i_.func) == "isinstance")]
-            cut = [n_ for n_ in t.nodes_in(gf_, (ast.Break, ast.Return)) if not (isinstance(n_, ast.Return) and n_.value is None and False)]
+            cut = [n_ for n_ in t.nodes_in(gf_, (ast.Break, ast.Return)) if n_ is not y_]
             if other or filt or cut:
                 what_ = other[0] if other else (filt[0].ifs[0] if filt else cut[0])
                 res.fail(Finding("C17.FAN", gf_.qname, what_, gf_.loc(what_), "the plugins of a kind are handed out depending on `%s`, not on their kind alone: an active processor "
